@@ -30,6 +30,11 @@ type Request struct {
 	// Transport behaviour
 	Frag        string // whole | halves | bytes | random | boundary
 	FragSeed    int64
+	// LateEOF: the handler's body reader never reports io.EOF together with
+	// data; the end of the body arrives as a separate (0, EOF) read, as under
+	// HTTP/2 or behind middleware that buffered the body.  (net/http's HTTP/1
+	// body reports EOF along with the last bytes of a Content-Length body.)
+	LateEOF bool
 	EOFWithData bool  // last fragment delivered together with io.EOF
 	Stall       int   // extra scheduling points before each read
 	AbortAfter  int   // >=0: connection dies after this many body bytes were delivered
@@ -270,6 +275,9 @@ func Do(h http.Handler, r *Request) *Response {
 		return resp
 	}
 	hreq.RemoteAddr = "sim:1"
+	if r.LateEOF && hreq.Body != nil && hreq.Body != http.NoBody {
+		hreq.Body = &lateEOF{rc: hreq.Body}
+	}
 	w := &respWriter{req: r, method: hreq.Method, hdr: http.Header{}}
 	func() {
 		defer func() {
@@ -314,3 +322,22 @@ func EscapePath(p string) string {
 	}
 	return b.String()
 }
+
+type lateEOF struct {
+	rc  io.ReadCloser
+	err error
+}
+
+func (l *lateEOF) Read(p []byte) (int, error) {
+	if l.err != nil {
+		return 0, l.err
+	}
+	n, err := l.rc.Read(p)
+	if n > 0 && err == io.EOF {
+		l.err = err
+		return n, nil
+	}
+	return n, err
+}
+
+func (l *lateEOF) Close() error { return l.rc.Close() }
